@@ -39,6 +39,7 @@ class CppHarness:
         self.uid = 0
         self.messages = list(messages)
         self.order = self._toposort(messages)
+        self.port_owner = {}
 
     @staticmethod
     def key(t):
@@ -172,10 +173,10 @@ class CppHarness:
         it = M.inner(t)
         o = ['    std::printf("EXTENT %%llu\\n", static_cast<unsigned long long>(%s::_traits_::ExtentBytes));' % n,
              '    std::printf("BUFSIZE %%llu\\n", static_cast<unsigned long long>(%s::_traits_::SerializationBufferSizeBytes));' % n]
-        if not t.has_parent_service:
-            o.append('    std::printf("HASPORT %%d\\n", static_cast<int>(%s::_traits_::HasFixedPortID));' % n)
-            if t.has_fixed_port_id:
-                o.append('    std::printf("PORT %%llu\\n", static_cast<unsigned long long>(%s::_traits_::FixedPortId));' % n)
+        o.append('    std::printf("HASPORT %%d\\n", static_cast<int>(%s::_traits_::HasFixedPortID));' % n)
+        owner = self.port_owner.get(self.key(t), t)       # request/response carry the port-ID of their service
+        if owner.has_fixed_port_id:
+            o.append('    std::printf("PORT %%llu\\n", static_cast<unsigned long long>(%s::_traits_::FixedPortId));' % n)
         if isinstance(it, pydsdl.UnionType):
             o.append('    std::printf("OPTIONS %%llu\\n", static_cast<unsigned long long>(%s::VariantType::MAX_INDEX));' % n)
         for c in it.constants:
